@@ -52,6 +52,9 @@ type api struct {
 	offered func() error
 	lock    func(bool) // locks / unlocks the poc wallet under the keeper (a locked wallet makes Start refuse)
 	ids     []string
+	// plotDir (real backend only): a plot file of the keeper may vanish from it while requests are in flight (disk
+	// swapped, file removed by the operator): requests must still return
+	plotDir string
 }
 
 func v1api(sk *capacity.SpaceKeeper) *api {
@@ -173,7 +176,16 @@ func stress(rng *vh.Rng, a *api, tr *tracker, rec *Rec, G, M int, withStartStop 
 				if len(a.ids) > 0 && !r.Chance(1, 20) {
 					sid = a.ids[r.Intn(len(a.ids))]
 				}
-				switch r.Weighted(30, 10, 12, 3, 2, 2, 1) {
+				wUnlink := 0
+				if a.plotDir != "" {
+					wUnlink = 1
+				}
+				switch r.Weighted(30, 10, 12, 3, 2, 2, 1, wUnlink) {
+				case 7:
+					if fs, _ := filepath.Glob(filepath.Join(a.plotDir, "*.massdb")); len(fs) > 0 {
+						f := fs[r.Intn(len(fs))]
+						tr.do("external unlink of a plot file", func() { os.Remove(f) })
+					}
 				case 6:
 					if withStartStop && a.lock != nil {
 						l := r.Chance(1, 3)
@@ -272,8 +284,11 @@ func scenario(rng *vh.Rng, idx int, kind string, base string) Rec {
 				}
 			}
 		}
+		if kind == "stress-real" && idx%4 == 1 {
+			a.plotDir = dir
+		}
 		G, M := rng.Range(4, 16), rng.Range(20, 60)
-		rec.Params = fmt.Sprintf("spaces=%d bl=%d goroutines=%d calls=%d", n, bl, G, M)
+		rec.Params = fmt.Sprintf("spaces=%d bl=%d goroutines=%d calls=%d external_unlinks=%v", n, bl, G, M, a.plotDir != "")
 		sk.Start()
 		if !stress(rng, a, tr, &rec, G, M, true) {
 			break
